@@ -6,6 +6,23 @@ import os
 VERIF = os.path.dirname(os.path.dirname(os.path.abspath(__file__)))
 
 CLAIMED = {
+    "C01": dict(
+        text="Coq theorems (props/C01.v) over the Gallina model of utils::{int_from_slice,bytes_from_int,float_from_slice,"
+             "bytes_from_float} and of IntReg/FloatReg/StringReg/Register value/set_value/read/write over a recording "
+             "device (uncached): for every supported length, byte order, signedness, address and in-range value the "
+             "device receives exactly one write of the two's-complement image at [address, address+length), bytes "
+             "outside are unchanged, read-back returns the value; every device byte image decodes to the number whose "
+             "image it is (sign extension included); unsupported lengths are refused before any access; 8-byte floats "
+             "are bit exact for all 2^64 patterns; NUL-padded ASCII strings round-trip and non-ASCII / NUL-containing / "
+             "over-long strings are refused without access; raw access is exact and refuses other buffer lengths. "
+             "PARTIAL: the binary32 conversion (narrow/widen written in integer arithmetic in the model) has no "
+             "round-trip theorem yet; it is validated by correspondence on boundary + random patterns only. Tied to "
+             "/repo by running real nodes built from XML and the extracted model on the same histories.",
+        note="Trusted: Coq kernel, model/RegCodec.v + lib/Mem.v validated by correspondence, extraction + driver, "
+             "rust/h_genapi (recording Device), tools/c01.py + reghist.py + xmlrender.py (independent Python predicate "
+             "using struct for IEEE-754). roxmltree and the XML parser are exercised, not modelled, here (see C17).",
+        technique="Coq proof (codec round trips, memory splice lemmas) + model/implementation correspondence",
+        design="6/C01"),
     "C10": dict(
         text="Coq theorems (props/C10.v) over the Gallina model of ReadMem/WriteMem::chunks and their iterators: for every "
              "address, length and budget the chunk list is finite, non-empty chunks, contiguous, sums/concatenates to the "
